@@ -46,6 +46,12 @@ func c16Step(x *engine.Exec) []engine.Failure {
 		legacy := x.Op.Args["legacy"] == "1"
 		if x.Res.Rejected {
 			x.Cnt.Inc("gov.rejected")
+			if a, ok := prev.Assets[x.Op.Denom]; ok && x.Op.K == world.KGovDelete && a.TotalTokens.IsPositive() && (signer == "" || signer == "authority") {
+				x.Cnt.Inc("gov.delete_refused_while_staked")
+				if !a.TotalValidatorShares.IsPositive() {
+					x.Cnt.Inc("gov.delete_refused_with_stake_but_zero_share_total")
+				}
+			}
 			if x.Res.Panicked {
 				x.Cnt.Inc("gov.rejected_by_panic")
 			}
@@ -259,7 +265,23 @@ func init() {
 				Ops: seqOps, Step: c16Step,
 				Required: []string{"gov.accepted", "block.decayed_weight"},
 			}
-			return []*engine.Scenario{prod, seq}
+			// "deleted only while nothing is staked" along staking histories: the staked total and the share totals move apart
+			// under slashes (a 100% slash of every holder zeroes the share total and leaves the staked total) and take-rate deductions
+			delOps := func(n *engine.Node) []world.Op {
+				ops := Alpha{Dels: []int{0, 1}, Vals: []int{0, 1}, Denoms: []string{"aaa"}, UndAll: true, RedAll: tier == "thorough",
+					SlashVals: []int{0, 1}, SlashF: []string{"0.5", "1"}, BlockDts: dts(2, 4)}.Ops(n)
+				ops = append(ops, world.Op{K: world.KGovDelete, Denom: "aaa", Class: ClsGov, Args: map[string]string{"signer": "authority"}})
+				ops = append(ops, world.Op{K: world.KGovDelete, Denom: "aaa", Class: ClsGov, Args: map[string]string{"legacy": "1"}})
+				return ops
+			}
+			del := &engine.Scenario{
+				Property: "C16", Name: "c16-delete-lifecycle", Cfg: cfg, Stores: world.ModuleStores,
+				Seeds:      [][]world.Op{{opDel(0, 0, "aaa", "1000"), opDel(1, 1, "aaa", "7")}, {opDel(0, 0, "aaa", "1000")}},
+				ClassNames: classNames, Budgets: tierPick(tier, []int{3, 2, 0, 2, 2}, []int{4, 3, 0, 3, 2}), MaxDepth: tierPick(tier, 8, 10),
+				Ops: delOps, Step: c16Step, SeedStep: true,
+				Required: []string{"gov.delete_accepted", "gov.delete_refused_while_staked", "gov.delete_refused_with_stake_but_zero_share_total"},
+			}
+			return []*engine.Scenario{prod, seq, del}
 		},
 		Assumptions: []string{
 			"field menus of DESIGN §4 C16 (nil, negative, boundary, huge); quick tier drops one interior value per menu, thorough runs the full product; non-authority signers are combined with a valid/one-invalid menu",
